@@ -427,7 +427,7 @@ func replyLayout(c *an.Ctx, parser *ssa.Function, respBuf *an.Term) {
 			t := hfi.Term(sl)
 			lo, okl := t.A[1].IsConst()
 			hi, okh := t.A[2].IsConst()
-			if okl && okh && (t.A[0].K == an.KMake || (t.A[0].K == an.KSlice && t.A[0].A[0].K == an.KAlloc)) {
+			if okl && okh && (t.A[0].K == an.KMake || t.A[0].K == an.KAlloc || (t.A[0].K == an.KSlice && t.A[0].A[0].K == an.KAlloc)) {
 				wrote[lo+":"+hi] = true
 			}
 		}
